@@ -90,12 +90,26 @@ func c13Run(s *c13Scn, variant string) verdict {
 	}
 
 	var opOpts []util.Option
+
+	// options of other layers (channel, network) may stand anywhere in the list: they are ignored by the layer that does not
+	// know them and must not keep later options from taking effect
+	switch s.idx % 4 {
+	case 1:
+		opOpts = append(opOpts, opoptions.WithTimeoutOps(4*time.Second))
+	case 2:
+		opOpts = append(opOpts, opoptions.WithExactMatchInput(), opoptions.WithPrivilegeLevel(""))
+	}
+
 	if len(s.Op) > 0 {
 		opOpts = append(opOpts, opoptions.WithFailedWhenContains(conc(s.Op)))
 	}
 
 	if s.Stop {
 		opOpts = append(opOpts, opoptions.WithStopOnFailed())
+	}
+
+	if s.idx%4 == 3 {
+		opOpts = append(opOpts, opoptions.WithTimeoutOps(4*time.Second))
 	}
 
 	var gd *generic.Driver
